@@ -410,7 +410,7 @@ var stdMemOps = func() []stdMemOp {
 	}})
 	for _, k := range []byte{h.CALL, h.CALLCODE, h.DELEGATECALL, h.STATICCALL} {
 		kind := k
-		for _, tgt := range []common.Address{h.ContractAddr(1), common.BytesToAddress([]byte{4})} {
+		for _, tgt := range []common.Address{h.ContractAddr(1), common.BytesToAddress([]byte{4}), h.EOARich} {
 			t := tgt
 			ops = append(ops, stdMemOp{fmt.Sprintf("call %#x to %s (outLen,outOff,inLen,inOff)", kind, t.Hex()[36:]), 4, func(a *h.Asm, v []*uint256.Int) {
 				push(a, v)
@@ -660,10 +660,19 @@ func genHostile(c Case, tier string) []hostileCase {
 			}
 			main := h.NewAsm()
 			for j := range helpers {
-				main.PushU(0).PushU(0).PushU(0).PushU(0).PushAddr(h.ContractAddr(j + 1)).PushU(150000).Op(h.DELEGATECALL, h.POP)
+				switch r.Intn(6) {
+				case 0: // (a frame of its own account, reached only by a static call)
+					main.PushU(0).PushU(0).PushU(0).PushU(0).PushAddr(h.ContractAddr(j + 1)).PushU(150000).Op(h.STATICCALL, h.POP)
+				case 1:
+					main.PushU(0).PushU(0).PushU(0).PushU(0).PushU(0).PushAddr(h.ContractAddr(j + 1)).PushU(150000).Op(h.CALL, h.POP)
+				case 2:
+					main.PushU(0).PushU(0).PushU(0).PushU(0).PushU(0).PushAddr(h.ContractAddr(j + 1)).PushU(150000).Op(h.CALLCODE, h.POP)
+				default:
+					main.PushU(0).PushU(0).PushU(0).PushU(0).PushAddr(h.ContractAddr(j + 1)).PushU(150000).Op(h.DELEGATECALL, h.POP)
+				}
 			}
 			main.Op(h.STOP)
-			out = append(out, hostileCase{h.BaseWorld(append([][]byte{main.Bytes()}, helpers...)), h.EnvSpec{Fork: h.Pick(r, []h.Fork{h.Homestead, h.Byzantium, h.Berlin, h.Shanghai, h.Cancun})}, []h.TxSpec{{Entry: h.ECall, From: h.Sender, To: h.ContractAddr(0), Gas: 3_000_000}},
+			out = append(out, hostileCase{h.BaseWorld(append([][]byte{main.Bytes()}, helpers...)), h.EnvSpec{Fork: h.Pick(r, []h.Fork{h.Byzantium, h.Berlin, h.Shanghai, h.Cancun})}, []h.TxSpec{{Entry: h.ECall, From: h.Sender, To: h.ContractAddr(0), Gas: 3_000_000}},
 				"journal sequence: " + strings.Join(txt, " "), "jseq", nil})
 		}
 	case "jp":
